@@ -52,10 +52,11 @@ func (st *SplitTracker) TrackAssigned(shards []SourceSplitterShard) {
 
 	for _, shard := range shards {
 		st.assignedSplits[shard.ShardID] = struct{}{}
-	}
-
-	if len(shards) > 0 {
-		st.LastAssignedSplitID = shards[len(shards)-1].ShardID
+		// Shard discovery lists the shards after this ID so it must never move
+		// backwards, whatever the order of assignment.
+		if shard.ShardID > st.LastAssignedSplitID {
+			st.LastAssignedSplitID = shard.ShardID
+		}
 	}
 }
 
